@@ -513,11 +513,11 @@ def run_idents(case, res):
         if r.startswith("!"):
             continue
         # typed value: class + bit patterns (vs encodes exactly that)
-        other = seen.setdefault((vs.split(":")[0], r), vs)
+        other, ospec = seen.setdefault((vs.split(":")[0], r), (vs, spec))
         if other != vs:
             a, b = other.split(":")[1:], vs.split(":")[1:]
             zero = all(x == y or {int(x), int(y)} <= {0, 1 << 15, 1 << 31, 1 << 63} for x, y in zip(a, b))
-            collisions.append(dict(ident=r, values=[other, vs],
+            collisions.append(dict(ident=r, values=[other, vs], specs=[ospec, spec],
                                    cls="sign-of-zero" if zero else ("numpy-hex-bytes" if vs.startswith("@np") else "other")))
     res["status"] = "idents"
     res["ilines"] = lines
